@@ -87,12 +87,15 @@ enum Pad {
     Rep(usize),
     /// n chars of pseudo-random hex text (SplitMix64 seeded by the event id)
     Rnd(usize),
+    /// n times "é日✓" (2-, 3- and 3-byte characters): text whose length in bytes is not its length in characters
+    Uni(usize),
 }
 
 impl Pad {
     fn text(self, id: i64) -> String {
         match self {
             Pad::Rep(n) => "a".repeat(n),
+            Pad::Uni(n) => "é日✓".repeat(n),
             Pad::Rnd(n) => {
                 let mut rng = Rng::new(id as u64 ^ 0x5eed);
                 let mut s = String::with_capacity(n + 16);
@@ -108,6 +111,7 @@ impl Pad {
         match self {
             Pad::Rep(n) => Sexp::num(n),
             Pad::Rnd(n) => Sexp::tagged("rnd", vec![Sexp::num(n)]),
+            Pad::Uni(n) => Sexp::tagged("uni", vec![Sexp::num(n)]),
         }
     }
     fn parse(s: &Sexp) -> Option<Pad> {
@@ -117,6 +121,9 @@ impl Pad {
         let (t, a) = s.as_tagged()?;
         if t == "rnd" && a.len() == 1 {
             return Some(Pad::Rnd(a[0].as_usize()?));
+        }
+        if t == "uni" && a.len() == 1 {
+            return Some(Pad::Uni(a[0].as_usize()?));
         }
         None
     }
@@ -791,7 +798,8 @@ fn gen_case(rng: &mut Rng, tier: Tier, next_id: &mut i64) -> Case {
             id,
             kind: if !routable.is_empty() && rng.chance(5, 6) { *rng.pick(&routable) } else { *rng.pick(&[Kind::Log, Kind::Span, Kind::Metric]) },
             mdl: if rng.chance(3, 4) { mdls[0].to_string() } else { mdls[1].to_string() },
-            pad: match rng.below(4) {
+            pad: match rng.below(5) {
+                4 => Pad::Uni(rng.range(1, 60) as usize),
                 0 => Pad::Rep(0),
                 1 => Pad::Rep(rng.range(1, 40) as usize),
                 2 => Pad::Rep(rng.range(100, 400) as usize),
